@@ -181,12 +181,13 @@ def check_session(ex, cfg, status, ret, agg):
     for f in data_files:
         from .wpath import expected_names
         tmpn, finn = expected_names(ex, cfg, f['window'])
-        acc = [e for e in ex.events[:f['ev']] if e[0] == 'access' and envstubs.strid(e[1]) == envstubs.strid(finn)]
+        from .wpath import same_name
+        acc = [e for e in ex.events[:f['ev']] if e[0] == 'access' and same_name(ex, e[1], finn)]
         ok = bool(acc) and (acc[-1][2] is False or (not isinstance(acc[-1][2], bool) and ex.valid(z3.Not(acc[-1][2]))))
         agg.note('a data file is created only if its final name does not exist (a session never replaces a file finalized earlier)', ok,
                  None if ok else dict(model=path_model(ex)))
         if f['rename_ev'] is not None:
-            ok2 = envstubs.strid(f['final_name']) == envstubs.strid(finn)
+            ok2 = same_name(ex, f['final_name'], finn)
             agg.note('a tmp file is renamed only onto the final name that was seen absent before it was created', ok2, None if ok2 else path_model(ex))
     # 2. a call that needs a file period whose final name exists is refused, without a fatal failure, and later periods stay writable
     for i, c in enumerate(calls):
